@@ -16,21 +16,22 @@ Objects (all in `Model/Hints.lean`, `Model/Interp.lean`):
   `resolve_property` whose property is not in the list reported for the call's vertex.
 The property says that this refusing adapter is never triggered: the run under it equals the plain run.
 
-Full statement — FALSE on the pinned code (finding F-3):
+Full statement, proved (`required_props_complete`):
 
-  theorem required_props_complete (ir : IRQuery) (D : Data) (args) (h : VidsDistinct ir) :
-      interpret { Env.ofData D args with adapter := requiredCheckedAdapter ir D } ir
-        = interpret (Env.ofData D args) ir
+  interpret { Env.ofData D args with adapter := requiredCheckedAdapter ir D } ir
+    = interpret (Env.ofData D args) ir        for every query with distinct Vids.
 
-`compute_fold` (execution.rs l. 422–455) fetches every *imported* context-field tag through
-`resolve_property` at the tag's vertex, and `apply_fold_specific_filter` does the same for a tag
-operand of a fold-count filter, but `required_properties` only scans tag uses by filters of vertices
-of the tag's *own* component: a tag used only inside a fold (or only in a fold's post-filter) is
-requested without being listed.  Below: the refutation on a two-vertex query
-(`required_props_complete_false`), the theorem under the decidable guard that excludes exactly these
-requests (`required_props_complete_partial`), and its two halves — (A) the engine requests properties
-only at the statically known call sites `propSites ir` (unconditional), (B) every call site other
-than an imported / post-filter tag is listed.
+History (finding F-3, repaired): `compute_fold` (execution.rs) fetches every *imported*
+context-field tag through `resolve_property` at the tag's vertex, and `apply_fold_specific_filter`
+does the same for a tag operand of a fold-count filter, but `required_properties` used to scan only
+tag uses by filters of vertices of the tag's *own* component: a tag used only inside a fold (or only
+in a fold's post-filter) was requested without being listed.  The earlier revision of this file
+proved the refutation on the two-vertex query below (`required_props_complete_false`: plain run one
+row, checked run `panic "required-props"`; `f3_site_not_required : requiredProps f3IR 1 = []`) and
+the theorem only under the guard `TagsUsedInDefiningComponent`.  `required_properties` now also
+lists the tags of the vertex that a fold of its component imports or that a fold-count filter uses;
+the guard is gone.  The proof has two halves — (A) the engine requests properties only at the
+statically known call sites `propSites ir`, (B) every call site is listed.
 -/
 import TrustfallModel.Proofs.Hints
 
@@ -51,13 +52,11 @@ theorem calls_within_sites (env : Env) (ir : IRQuery) :
   interpret_checked env _ ir (fun s hs => by simpa using hs)
 
 /-- (B) Every call site is in the required-properties list of its vertex — for queries whose Vids
-are distinct (enforced by `IndexedQuery::try_from`) and in which every imported / post-filter
-context-field tag is also required at its own vertex. -/
-theorem sites_required_partial (ir : IRQuery) (hd : VidsDistinct ir)
-    (hg : TagsUsedInDefiningComponent ir) :
+are distinct (enforced by `IndexedQuery::try_from`). -/
+theorem sites_required_all (ir : IRQuery) (hd : VidsDistinct ir) :
     ∀ s ∈ propSites ir, s.2 ∈ requiredProps ir s.1 := by
   intro s hs
-  have := sites_required hd hg s hs
+  have := sites_required hd s hs
   simpa [requiredOk] using this
 
 /-- Refusing the properties outside a set `q` is invisible as soon as `q` contains the call sites. -/
@@ -66,24 +65,21 @@ theorem checked_invisible (env : Env) (ir : IRQuery) (q : Vid → Name → Bool)
     interpret (env.checked q) ir = interpret env ir :=
   interpret_checked env q ir h
 
-/-- **C05 on the pinned code**, for any adapter: under the guards `VidsDistinct` (well-formedness)
-and `TagsUsedInDefiningComponent` (the exact complement of F-3: every context-field tag imported by a
-fold or used by a fold-count filter is also output, filtered, or used as a tag by a vertex filter of
-its own component), an adapter that refuses every property outside the reported required-properties
-list of the call's vertex behaves exactly like the adapter itself. -/
-theorem required_props_complete_partial_env (env : Env) (ir : IRQuery) (hd : VidsDistinct ir)
-    (hg : TagsUsedInDefiningComponent ir) :
+/-- **C05**, for any adapter: for every query with distinct Vids, an adapter that refuses every
+property outside the reported required-properties list of the call's vertex behaves exactly like
+the adapter itself. -/
+theorem required_props_complete_env (env : Env) (ir : IRQuery) (hd : VidsDistinct ir) :
     interpret (env.checked (requiredOk ir)) ir = interpret env ir :=
-  interpret_checked env _ ir (sites_required hd hg)
+  interpret_checked env _ ir (sites_required hd)
 
-/-- The same for the table adapter of a dataset, in the shape of the full statement. -/
-theorem required_props_complete_partial (ir : IRQuery) (D : Data) (args : List (Name × Value))
-    (hd : VidsDistinct ir) (hg : TagsUsedInDefiningComponent ir) :
+/-- **C05**, the full statement: the table adapter that refuses every property outside the list. -/
+theorem required_props_complete (ir : IRQuery) (D : Data) (args : List (Name × Value))
+    (hd : VidsDistinct ir) :
     interpret { Env.ofData D args with adapter := requiredCheckedAdapter ir D } ir
       = interpret (Env.ofData D args) ir :=
-  required_props_complete_partial_env (Env.ofData D args) ir hd hg
+  required_props_complete_env (Env.ofData D args) ir hd
 
-/-! ### F-3: the refutation of the full statement
+/-! ### the former witness of F-3
 
 `{ RA { x @tag(name: "t")  e @fold { y @filter(op: "=", value: ["%t"]) @output(name: "o1") } } }`
 over one `A` vertex (`x = 1`) with one `e`-neighbour `B` (`y = 1`). -/
@@ -104,10 +100,11 @@ def f3Data : Data :=
   { vertices := [⟨0, "A", [("x", .int64 1)]⟩, ⟨1, "B", [("y", .int64 1)]⟩],
     adj := [⟨0, "e", [], [1]⟩], starts := [⟨"RA", [], [0]⟩], rx := [], sub := [] }
 
-/-- Statically: the engine resolves `x` at vertex 1 (imported tag), the list of vertex 1 is empty. -/
-theorem f3_site_not_required :
-    VidsDistinct f3IR ∧ (1, "x") ∈ propSites f3IR ∧ requiredProps f3IR 1 = [] ∧
-      requiredProps f3IR 2 = ["y"] ∧ ¬ TagsUsedInDefiningComponent f3IR := by
+/-- Statically: the engine resolves `x` at vertex 1 (imported tag), and the list of vertex 1 now
+contains it (it used to be empty). -/
+theorem f3_site_required :
+    VidsDistinct f3IR ∧ (1, "x") ∈ propSites f3IR ∧ requiredProps f3IR 1 = ["x"] ∧
+      requiredProps f3IR 2 = ["y"] := by
   decide
 
 theorem computeComponent_leaf (env : Env) (n : Nat) (comp : Component) (ctxs : List Ctx)
@@ -141,55 +138,35 @@ theorem f3_plain_run :
   simp only [show (63 : Nat) = 62 + 1 from rfl, computeComponent_leaf _ 62 f3Fold _ rfl rfl]
   rfl
 
-/-- … the run under the required-properties-checking adapter is refused: the engine asks for
-`A.x` at vertex 1 while importing the tag into the fold. -/
+/-- … and so does the run under the required-properties-checking adapter (it used to be refused
+with `panic "required-props"` while the tag was imported into the fold). -/
 theorem f3_checked_run :
     interpret { Env.ofData f3Data [] with adapter := requiredCheckedAdapter f3IR f3Data } f3IR
-      = .panic "required-props" := by
-  unfold interpret interpretFrom
-  rw [show ({ Env.ofData f3Data [] with adapter := requiredCheckedAdapter f3IR f3Data } : Env).adapter.start
-    f3IR.rootName f3IR.rootParams f3IR.rootComponent.root = .ok [0] from rfl]
-  simp only [R.bind_ok]
-  rw [show fuelFor f3IR = Nat.succ 63 from rfl, computeComponent.eq_2]
-  rw [show mergeStages f3IR.rootComponent.edges f3IR.rootComponent.folds
-      (f3IR.rootComponent.edges.length + f3IR.rootComponent.folds.length) =
-      .ok [Stage.fold (.mk 1 1 2 "e" [] f3Fold [.ctx 1 "x" tInt] [] [])] from rfl]
-  simp only [R.bind_ok, runStages.eq_3, computeFold.eq_1]
-  rfl
-
-/-- **The full statement is false** (F-3): a well-formed query, a dataset and arguments for which
-the checking adapter changes the outcome. -/
-theorem required_props_complete_false :
-    ∃ (ir : IRQuery) (D : Data) (args : List (Name × Value)), VidsDistinct ir ∧
-      interpret { Env.ofData D args with adapter := requiredCheckedAdapter ir D } ir
-        ≠ interpret (Env.ofData D args) ir := by
-  refine ⟨f3IR, f3Data, [], by decide, ?_⟩
-  rw [f3_checked_run, f3_plain_run]
-  exact nofun
+      = .ok [[("o1", .list [.int64 1])]] := by
+  rw [required_props_complete f3IR f3Data [] (by decide), f3_plain_run]
 
 /-- The second shape of F-3: the tag is used only by a fold-count filter
 (`{ RA { x @tag(name: "t")  e @fold @transform(op: "count") @filter(op: "=", value: ["%t"]) } }`):
-`apply_fold_specific_filter` resolves `x` at vertex 1; not listed. -/
+`apply_fold_specific_filter` resolves `x` at vertex 1; now listed after the output `id`. -/
 def f3PostIR : IRQuery :=
   ⟨"RA", [], [], .mk 1 [⟨1, "A", none, []⟩] []
     [.mk 1 1 2 "e" [] (.mk 2 [⟨2, "B", none, []⟩] [] [] []) [] []
       [⟨.bin .equals, .count, some (.tag (.ctx 1 "x" tInt))⟩]] [⟨"o", 1, "id", tInt⟩]⟩
 
-theorem f3_post_filter_site_not_required :
-    VidsDistinct f3PostIR ∧ (1, "x") ∈ propSites f3PostIR ∧ requiredProps f3PostIR 1 = ["id"] ∧
-      ¬ TagsUsedInDefiningComponent f3PostIR := by
+theorem f3_post_filter_site_required :
+    VidsDistinct f3PostIR ∧ (1, "x") ∈ propSites f3PostIR ∧ requiredProps f3PostIR 1 = ["id", "x"] := by
   decide
 
-/-! ### Non-vacuity of the guard -/
+/-! ### Non-vacuity -/
 
-/-- The guard admits imported tags: the same query with `x` also output at vertex 1
-(`x @tag(name: "t") @output(name: "o0")`) satisfies it, and the list of vertex 1 is `[x]`. -/
+
+/-- The same query with `x` also output at vertex 1 (`x @tag(name: "t") @output(name: "o0")`):
+the list of vertex 1 is `[x]`, once. -/
 def okImportIR : IRQuery :=
   ⟨"RA", [], [], .mk 1 [⟨1, "A", none, []⟩] [] [.mk 1 1 2 "e" [] f3Fold [.ctx 1 "x" tInt] [] []]
     [⟨"o0", 1, "x", tInt⟩]⟩
 
-example : VidsDistinct okImportIR ∧ TagsUsedInDefiningComponent okImportIR ∧
-    requiredProps okImportIR 1 = ["x"] := by decide
+example : VidsDistinct okImportIR ∧ requiredProps okImportIR 1 = ["x"] := by decide
 
 /-- A query with an output, a filter with a variable, a same-component tag from an earlier vertex, a
 repeated property and a fold with outputs: the list is de-duplicated in the reported order. -/
@@ -202,7 +179,7 @@ def okTagIR : IRQuery :=
     [.mk 2 2 3 "g" [] (.mk 3 [⟨3, "B", none, []⟩] [] [] [⟨"o3", 3, "y", tInt⟩]) [] ["c"] []]
     [⟨"o1", 1, "x", tInt⟩, ⟨"o2", 2, "y", tInt⟩]⟩
 
-example : VidsDistinct okTagIR ∧ TagsUsedInDefiningComponent okTagIR ∧
+example : VidsDistinct okTagIR ∧
     requiredProps okTagIR 1 = ["x", "z"] ∧ requiredProps okTagIR 2 = ["y", "w"] ∧
     requiredProps okTagIR 3 = ["y"] := by decide
 
@@ -212,12 +189,11 @@ example : propSites okTagIR = [(1, "x"), (2, "y"), (1, "x"), (2, "y"), (1, "z"),
 end TF.C05
 
 #print axioms TF.C05.calls_within_sites
-#print axioms TF.C05.sites_required_partial
+#print axioms TF.C05.sites_required_all
 #print axioms TF.C05.checked_invisible
-#print axioms TF.C05.required_props_complete_partial_env
-#print axioms TF.C05.required_props_complete_partial
-#print axioms TF.C05.f3_site_not_required
+#print axioms TF.C05.required_props_complete_env
+#print axioms TF.C05.required_props_complete
+#print axioms TF.C05.f3_site_required
 #print axioms TF.C05.f3_plain_run
 #print axioms TF.C05.f3_checked_run
-#print axioms TF.C05.required_props_complete_false
-#print axioms TF.C05.f3_post_filter_site_not_required
+#print axioms TF.C05.f3_post_filter_site_required
